@@ -280,7 +280,7 @@ fn main() {
     for (si, seeds) in LEADING_ZERO_SEEDS { for s in *seeds { cx.one(&shapes_all[*si], *s); } }
     for sh in &shapes_all {
         let slow = matches!(sh.primary, KeyType::Rsa(_) | KeyType::Dsa(_));
-        let n: u64 = if slow { if thorough { 6 } else { 1 } } else if thorough { 600 } else { 60 };
+        let n: u64 = if slow { if thorough { 6 } else { 1 } } else if thorough { 400 } else { 60 };
         for s in 0..n { cx.one(sh, cli.seed * 100_000 + s); }
     }
     cx.out.finish();
